@@ -293,3 +293,10 @@ pub fn server_start(
 
     Ok((ServerRef { core_ref, comm_ref }, future))
 }
+
+#[cfg(feature = "verif")]
+impl ServerRef {
+    pub(crate) fn verif_from_parts(core_ref: CoreRef, comm_ref: CommSenderRef) -> Self {
+        ServerRef { core_ref, comm_ref }
+    }
+}
